@@ -934,12 +934,14 @@ Helper::SessionBase::HelperServerClosed(SessionBase * const srv)
 }
 
 Helper::Xaction *
-Helper::Session::popRequest(const int request_number)
+Helper::Session::popRequest(const int64_t request_number)
 {
     Xaction *r = nullptr;
     if (parent->childs.concurrency) {
         // If concurrency supported retrieve request from ID
-        const auto it = requestsIndex.find(request_number);
+        // (a negative number is not the ID of any request)
+        const auto it = request_number < 0 ? requestsIndex.end() :
+                        requestsIndex.find(static_cast<uint64_t>(request_number));
         if (it != requestsIndex.end()) {
             r = *(it->second);
             requests.erase(it->second);
@@ -1082,10 +1084,11 @@ helperHandleRead(const Comm::ConnectionPointer &conn, char *, size_t len, Comm::
         }
 
         if (!srv->ignoreToEom && !srv->replyXaction) {
-            int i = 0;
+            int64_t i = 0;
             if (hlp->childs.concurrency) {
                 char *e = nullptr;
-                i = strtol(msg, &e, 10);
+                // no truncation: an ID that does not fit an int is not some other request's ID
+                i = strtoll(msg, &e, 10);
                 // Do we need to check for e == msg? Means wrong response from helper.
                 // Will be dropped as "unexpected reply on channel 0"
                 needsMore = !(xisspace(*e) || (eom && e == eom));
